@@ -22,6 +22,9 @@ OBLIGATIONS = [
     ob('C02.frame.continental', 'h_frame_continental', 'fpu', QC, FRAME_LAB, 'L<=2 entries (3 thorough), 0..2 stub models per kind, constant/variable depth surfaces, Cartesian/spherical', cases_thorough=TC),
     ob('C02.frame.oceanic', 'h_frame_oceanic', 'fpu', QC, FRAME_LAB, 'as C02.frame.continental', cases_thorough=TC),
     ob('C02.frame.mantle', 'h_frame_mantle', 'fpu', QC, FRAME_LAB, 'as C02.frame.continental', cases_thorough=TC),
+    ob('C02.frame.plume', 'h_c02_plume_frame', 'fpu', [(1, 0), (1, 1 + 3 + 9 + 27), (1, 2 + 6 + 18 + 54), (2, 2 + 3 + 9 + 27)], [l for l in FRAME_LAB if not l.startswith('polygon')], 'Plume::properties with one cross section, point at or below it; L<=2 entries (3 thorough), 0..2 stub models per kind', cases_thorough=[(1, 0), (1, 1 + 3 + 9 + 27), (1, 2 + 6 + 18 + 54), (2, 2 + 3 + 9 + 27), (2, 0), (3, 1 + 3 + 9 + 27)],
+       harness='c04_plume.cc', tus=['c04_plume.cc'] + T1[1:] + ['features/plume', 'features/feature_utilities'] + ['features/plume_models/%s/interface' % k for k in ('temperature', 'composition', 'grains', 'velocity')],
+       stubs=['fraction_from_ellipse_center replaced by a fresh value >= 0 (its formula is C04.ellipse, the cross-section interpolation C04.plume)', 'models are stubs returning an uninterpreted function of (model id, depth, incoming value, depth range, relative distance)']),
     ob('C02.fold', 'h_c02_fold', 'fpu', [(1,), (2,)], ['answer = covering features applied to the background in file order', 'tag is that of the last covering feature (-1 if none)',
        'deleting a non-covering feature changes nothing', 'moving a non-covering feature changes nothing', 'end'], '3 combining stub features with symbolic coverage, L<=2 entries (3 thorough)', cases_thorough=[(1,), (2,), (3,)]),
 ]
